@@ -208,6 +208,32 @@ func c19RunLatest(b core.Batch, r *core.Recorder) {
 		var lastSize int64
 		var lastBudget int
 		var lastInterval time.Duration
+		// every third burst arrives while the janitor is busy: its loop is parked inside a cleanup cycle (hook
+		// janitor.scan.done) until all changes of the burst have been announced
+		parkedVariant := i%3 == 0
+		extra := int64(0)
+		release := make(chan struct{})
+		if parkedVariant {
+			parked := make(chan struct{}, 1)
+			var armed atomic.Bool
+			verifhook.Set("janitor.scan.done", func(any) {
+				if armed.CompareAndSwap(true, false) {
+					parked <- struct{}{}
+					<-release
+				}
+			})
+			armed.Store(true)
+			cfg.Cache.CleanupInterval.Overwrite(duration.Duration(time.Millisecond)) // the ticker now fires, a cycle starts
+			extra = 1
+			select {
+			case <-parked:
+				r.Count("bursts_while_janitor_busy", 1)
+			case <-time.After(3 * time.Second):
+				armed.Store(false)
+				parkedVariant = false
+				close(release)
+			}
+		}
 		for k := 0; k < n; k++ {
 			lastSize = int64(1000 + rng.IntN(1_000_000))
 			lastBudget = 1 + rng.IntN(99)
@@ -216,10 +242,26 @@ func c19RunLatest(b core.Batch, r *core.Recorder) {
 			cfg.Cache.Memory.MemoryBudgetPercent.Overwrite(lastBudget)
 			cfg.Cache.CleanupInterval.Overwrite(duration.Duration(lastInterval))
 		}
+		// quiescence of the notifications is observed (every co-listener has run n times); the components were
+		// notified together with the co-listeners and get a bounded grace period to act on what they were told.
+		// How many times the janitor re-arms its ticker is its own business (it may coalesce signals): only the value
+		// it ends on is judged. Demanding n applications, as an earlier version did, left a janitor that drops the
+		// newest change "not judged".
 		quiet := waitFor(func() bool {
-			return dSize.Load() == int64(n) && dBudget.Load() == int64(n) && dInterval.Load() == int64(n) && applied.Load()-applied0 >= int64(n)
+			return dSize.Load() == int64(n) && dBudget.Load() == int64(n) && dInterval.Load() == int64(n)+extra
 		}, 10*time.Second)
-		time.Sleep(2 * time.Millisecond) // the component listeners were started together with the co-listeners
+		_ = applied0
+		if parkedVariant {
+			close(release)
+		}
+		verifhook.Set("janitor.scan.done", nil)
+		if quiet {
+			waitFor(func() bool {
+				gs, _ := c.VerifLimits()
+				return gs == lastSize && time.Duration(lastApplied.Load()) == lastInterval
+			}, 5*time.Second)
+			time.Sleep(2 * time.Millisecond)
+		}
 		cs := map[string]any{"id": id, "backend": backend, "changes": n, "gomaxprocs": runtime.GOMAXPROCS(0)}
 		if !quiet {
 			r.NotJudged("quiescence-not-reached")
@@ -248,6 +290,16 @@ func c19RunLatest(b core.Batch, r *core.Recorder) {
 		u3()
 		c.Destroy()
 		cancel()
+		// a janitor that still had a signal pending when it was stopped may act on it once more: let that settle
+		// before the next burst starts, so that it cannot be mistaken for the next cache's janitor
+		for prev, stable := applied.Load(), 0; stable < 3; {
+			time.Sleep(time.Millisecond)
+			if cur := applied.Load(); cur == prev {
+				stable++
+			} else {
+				prev, stable = cur, 0
+			}
+		}
 	}
 	// log level on the real logging package (process-global, initialised once)
 	cfg := config.NewDefault()
@@ -296,41 +348,62 @@ func c19RunShutdown(b core.Batch, r *core.Recorder) {
 			for stopAfter := 1; stopAfter <= 3; stopAfter++ {
 				n++
 				id := fmt.Sprintf("d%d", n)
-				if !r.Case(id, map[string]any{"destroy_order": perm[:stopAfter]}) {
+				// how a component is shut down: Destroy on a live context, or (as the program itself does at exit) the
+				// context is cancelled first, the janitor loop ends, and Destroy follows
+				how := []string{"destroy", "cancel-then-destroy"}[n%2]
+				if !r.Case(id, map[string]any{"destroy_order": perm[:stopAfter], "how": how}) {
 					continue
 				}
 				r.Eval(1)
-				ctx, cancel := context.WithCancel(context.Background())
 				cfg := config.NewDefault()
 				caches := make([]rig.VCache, 3)
+				cancels := make([]context.CancelFunc, 3)
 				for i := range caches {
 					be := []string{"memory", "file", "memory"}[i]
+					var ctx context.Context
+					ctx, cancels[i] = context.WithCancel(context.Background())
 					caches[i], _ = rig.NewCache(ctx, rig.CacheOpts{Backend: be, Dir: filepath.Join(wd, "c19cache", fmt.Sprintf("%s-%d", id, i)), Max: 1 << 30, Shards: 2, Interval: time.Hour, Cfg: cfg})
 				}
 				destroyed := map[int]bool{}
-				cs := map[string]any{"id": id, "destroy_order": perm[:stopAfter]}
+				cs := map[string]any{"id": id, "destroy_order": perm[:stopAfter], "how": how}
+				shut := func(i int) {
+					if how == "cancel-then-destroy" {
+						cancels[i]()
+						time.Sleep(3 * time.Millisecond) // the janitor loop notices the cancellation and ends
+					}
+					caches[i].Destroy()
+					destroyed[i] = true
+				}
 				var panicked any
 				func() {
 					defer func() { panicked = recover() }()
 					for _, i := range perm[:stopAfter] {
-						caches[i].Destroy()
-						destroyed[i] = true
+						shut(i)
 					}
 				}()
 				if panicked != nil {
 					r.Violation("C19", "C19:shutdown-panics", fmt.Sprintf("destroying caches in order %v panicked: %v", perm[:stopAfter], panicked), cs, nil)
-					cancel()
+					for _, c := range cancels {
+						c()
+					}
 					continue
 				}
-				var d atomic.Int64
+				var d, dI atomic.Int64
 				u := cfg.Cache.MaxCacheSize.OnChange(func(bytesize.ByteSize) { d.Add(1) })
+				uI := cfg.Cache.CleanupInterval.OnChange(func(duration.Duration) { dI.Add(1) })
 				newSize := int64(4242 + n)
 				cfg.Cache.MaxCacheSize.Overwrite(bytesize.ByteSize(newSize))
-				waitFor(func() bool { return d.Load() == 1 }, 5*time.Second)
+				// later changes of the interval too: a shut-down janitor must not be told (a listener that is still
+				// subscribed shows as a goroutine parked in the janitor's code once nobody drains its signal any more)
+				for k := 0; k < 3; k++ {
+					cfg.Cache.CleanupInterval.Overwrite(duration.Duration(time.Duration(70+n+k) * time.Minute))
+				}
+				waitFor(func() bool { return d.Load() == 1 && dI.Load() == 3 }, 5*time.Second)
 				time.Sleep(3 * time.Millisecond)
 				u()
+				uI()
 				r.Count("shutdown_orders_checked", 1)
-				r.Nontrivial("shutdown", fmt.Sprint(perm[:stopAfter]), rep)
+				r.Nontrivial("shutdown", fmt.Sprint(perm[:stopAfter]), how, rep)
 				for i, c := range caches {
 					got, _ := c.VerifLimits()
 					if destroyed[i] && got == newSize {
@@ -340,16 +413,41 @@ func c19RunShutdown(b core.Batch, r *core.Recorder) {
 						r.Violation("C19", "C19:survivor-lost-notification", fmt.Sprintf("caches %v were destroyed; surviving cache %d did not receive the later limit change (has %d, want %d)", perm[:stopAfter], i, got, newSize), cs, map[string]any{"cache": i})
 					}
 				}
-				for i, c := range caches {
+				for i := range caches {
 					if !destroyed[i] {
-						c.Destroy()
+						shut(i)
 					}
 				}
-				cancel()
+				for _, c := range cancels {
+					c()
+				}
+				// everything is shut down: two more changes; afterwards no goroutine may sit in the cache package
+				for k := 0; k < 2; k++ {
+					cfg.Cache.CleanupInterval.Overwrite(duration.Duration(time.Duration(500+n+k) * time.Minute))
+					cfg.Cache.MaxCacheSize.Overwrite(bytesize.ByteSize(newSize + int64(k) + 1))
+				}
+				var parked []string
+				for try := 0; try < 40; try++ {
+					time.Sleep(5 * time.Millisecond)
+					buf := make([]byte, 1<<20)
+					buf = buf[:runtime.Stack(buf, true)]
+					parked = parked[:0]
+					for _, g := range strings.Split(string(buf), "\n\n") {
+						if strings.Contains(g, "reservoir/cache.") {
+							parked = append(parked, core.Trunc(g, 600))
+						}
+					}
+					if len(parked) == 0 {
+						break
+					}
+				}
+				if len(parked) > 0 {
+					r.Violation("C19", "C19:shut-down-component-still-notified:"+how, fmt.Sprintf("all caches were shut down (%s); after two later changes %d goroutines still sit in the cache package (a listener of a dead component was run)", how, len(parked)), cs, map[string]any{"goroutines": parked})
+				}
 			}
 		}
 	}
-	r.Sample(map[string]any{"part": "shutdown", "what": "three caches (memory, file, memory) on one config; every prefix of every destruction order; then a limit change must reach exactly the survivors"})
+	r.Sample(map[string]any{"part": "shutdown", "what": "three caches (memory, file, memory) on one config; every prefix of every destruction order, by Destroy or by context-cancel-then-Destroy; then a limit change must reach exactly the survivors, and once everything is shut down later changes must leave no goroutine in the cache package"})
 }
 
 // ---- (4) policy switches through the proxy -------------------------------------------------------
@@ -805,12 +903,12 @@ func init() {
 		ID:    "C19",
 		Level: "exploration",
 		Rule: "set model: every sequence up to <depth> over {subscribe (<=4 listeners), unsubscribe_i (also repeated), fire} on ConfigProp.OnChange plus seeded random sequences of 8-30 ops with up to 8 listeners; after every fire exactly the model's listener set must have been called once each, no panic. " +
-			"latest value: bursts of 2-10 back-to-back changes of max_cache_size / memory_budget_percent / cleanup_interval on live memory and file caches and of the log level on the real logger, under GOMAXPROCS 1, 2, 16; at observed quiescence the component state must equal the last value. " +
-			"shutdown: three caches on one config, every prefix of every destruction order, then a change must reach exactly the survivors. first use: on a fresh configuration the first subscriptions and first changes of a never-used setting are released at once from 3-4 goroutines, then a further change must reach every listener with its value (race build). unsubscribe during a change: 3..512 listeners, 1-3 early ones shut down from other goroutines at the instant the setting changes; survivors must each be told exactly once, also about the next change. loaded configuration: per setting a configuration loaded from the file, then its first change through the API entry point (including to the zero value of its type) must reach its listener. policy: ignore_cache_control / retry_on_invalid_range / retry_on_range_416 toggled between requests through the real proxy. Non-trivial = distinct sequence with a fire and >= 2 listeners / burst / order / toggle.",
-		Assumptions: []string{"quiescence is observed (co-listeners counted, janitor.interval.applied hook), bursts where it is not reached within 10 s are not judged", "settings are changed with ConfigProp.Overwrite, the same entry point command-line overrides use"},
+			"latest value: bursts of 2-10 back-to-back changes of max_cache_size / memory_budget_percent / cleanup_interval on live memory and file caches and of the log level on the real logger, under GOMAXPROCS 1, 2, 16, every third burst while the janitor loop is parked inside a cleanup cycle (hook); at observed quiescence the component state must equal the last value. " +
+			"shutdown: three caches on one config, every prefix of every destruction order, shut down by Destroy or by cancelling the context and then Destroy; a change must then reach exactly the survivors, and after everything is shut down further changes must leave no goroutine in the cache package. first use: on a fresh configuration the first subscriptions and first changes of a never-used setting are released at once from 3-4 goroutines, then a further change must reach every listener with its value (race build). unsubscribe during a change: 3..512 listeners, 1-3 early ones shut down from other goroutines at the instant the setting changes; survivors must each be told exactly once, also about the next change. loaded configuration: per setting a configuration loaded from the file, then its first change through the API entry point (including to the zero value of its type) must reach its listener. policy: ignore_cache_control / retry_on_invalid_range / retry_on_range_416 toggled between requests through the real proxy. Non-trivial = distinct sequence with a fire and >= 2 listeners / burst / order / toggle.",
+		Assumptions: []string{"quiescence of the notifications is observed (co-listeners counted); components then get a bounded grace of 5 s to end on the last value (janitor.interval.applied hook); bursts whose notifications are not all delivered within 10 s are not judged", "settings are changed with ConfigProp.Overwrite, the same entry point command-line overrides use"},
 		Plan:        c19Plan,
 		Run:         c19Run,
 		Parallel:    5,
-		Floors:      map[string]map[string]int64{"quick": {"set_sequences_matching_model": 1500, "bursts_judged": 200, "shutdown_orders_checked": 30, "policy_switch_checks": 30, "first_use_scrambles": 300, "changes_with_concurrent_unsubscribe": 400, "loaded_first_changes_judged": 30}, "thorough": {"set_sequences_matching_model": 10000, "bursts_judged": 8000, "shutdown_orders_checked": 500, "policy_switch_checks": 1200, "first_use_scrambles": 10000, "changes_with_concurrent_unsubscribe": 15000, "loaded_first_changes_judged": 30}},
+		Floors:      map[string]map[string]int64{"quick": {"set_sequences_matching_model": 1500, "bursts_judged": 200, "bursts_while_janitor_busy": 30, "shutdown_orders_checked": 30, "policy_switch_checks": 30, "first_use_scrambles": 300, "changes_with_concurrent_unsubscribe": 400, "loaded_first_changes_judged": 30}, "thorough": {"set_sequences_matching_model": 10000, "bursts_judged": 8000, "bursts_while_janitor_busy": 1000, "shutdown_orders_checked": 500, "policy_switch_checks": 1200, "first_use_scrambles": 10000, "changes_with_concurrent_unsubscribe": 15000, "loaded_first_changes_judged": 30}},
 	})
 }
